@@ -77,27 +77,45 @@ def check(repo, rep):
     tfn = cx.fn('io', 'to_file')
     guess = [e[1] for l in tl for e in l.effects if e[0] == 'call' and e[1][0] == 'call' and e[1][1] == ('g', 'io', '_guess_audio_format')]
     rep.ob('to_file guesses the format from (filename, audio_format)', bool(guess) and all(g[2] == (('p', 'filename'), ('p', 'audio_format')) for g in guess), cx.where('io', tfn), 'to_file:guess-args')
-    kinds = {}
-    for l in tl:
-        def fmt_is(name):
-            for c in l.conds:
-                g = norm_cmp(c[0], c[1])
-                if g and ((g[0] == 'in' and any(x == ('c', name) for x in walk(g[2]))) or (g[0] == '==' and g[2] == ('c', name))):
-                    return True
-            return False
-        raw = fmt_is('raw')
-        wav = fmt_is('wav')
-        calls = [e[1] for e in l.effects if e[0] == 'call' and e[1][0] == 'call' and e[1][1][0] == 'g' and e[1][1][2].startswith('_save')]
-        if raw:
-            ok = len(calls) == 1 and calls[0][1][2] == '_save_raw' and calls[0][2][:2] == (('p', 'data'), ('p', 'filename'))
-            kinds['raw'] = True
-            rep.ob('to_file: raw (or no) format writes the bytes unchanged to the named file', ok, cx.where('io', tfn), 'to_file[raw]', 'calls %s' % [show(c)[:80] for c in calls], sample=dict(format='raw', calls=[show(c)[:70] for c in calls]))
-        elif wav:
-            kinds['wav'] = True
-            ok = len(calls) == 1 and calls[0][1][2] == '_save_wave' and calls[0][2][:2] == (('p', 'data'), ('p', 'filename'))
-            rep.ob('to_file: wav format goes to the wave writer with the same data and name', ok, cx.where('io', tfn), 'to_file[wav]', 'calls %s' % [show(c)[:80] for c in calls], sample=dict(format='wav', calls=[show(c)[:70] for c in calls]))
-    for k in ('raw', 'wav'):
-        rep.ob('to_file handles the %s format' % k, k in kinds, cx.where('io', tfn), 'to_file:missing-%s' % k)
+    # decided by taking each format through the path conditions of to_file (the guessed format is the value of the guess call)
+    from ..semantic import evaluator, Undecided
+    from ..termeval import NotEvaluable
+    if not guess:
+        rep.unknown('to_file: the call that guesses the format was not found')
+    else:
+        gterm = guess[0]
+        try:
+            for fmt_, want in ((None, '_save_raw'), ('raw', '_save_raw'), ('wav', '_save_wave')):
+                hit = []
+                for l in tl:
+                    ok_ = True
+                    for ct, tr, _ in l.conds:
+                        if not any(x == gterm or x == ('p', 'audio_format') for x in walk(ct)):
+                            continue
+                        ev_ = evaluator({gterm: fmt_, ('p', 'audio_format'): fmt_})
+                        got = ev_.ev(ct)
+                        if ev_.leaves:
+                            raise Undecided('condition %s' % show(ct)[:60])
+                        if bool(got) != tr:
+                            ok_ = False
+                            break
+                    if ok_:
+                        hit.append(l)
+                if not hit:
+                    raise Undecided('no path applies to format %r' % (fmt_,))
+                for l in hit:
+                    if l.outcome == 'raise' and want == '_save_wave' and exc_name(l) == 'AudioParameterError':
+                        continue        # missing audio parameters for wav: a documented error
+                    calls = [e[1] for e in l.effects if e[0] == 'call' and e[1][0] == 'call' and e[1][1][0] == 'g' and e[1][1][2].startswith('_save')]
+                    ok = len(calls) == 1 and calls[0][1][2] == want and calls[0][2][:2] == (('p', 'data'), ('p', 'filename'))
+                    if want == '_save_raw':
+                        rep.ob('to_file: raw (or no) format writes the bytes unchanged to the named file', ok, cx.where('io', tfn), 'to_file[%s]' % fmt_, 'format %r: calls %s' % (fmt_, [show(c)[:80] for c in calls]),
+                               sample=dict(format=fmt_, calls=[show(c)[:70] for c in calls]))
+                    else:
+                        rep.ob('to_file: wav format goes to the wave writer with the same data and name', ok, cx.where('io', tfn), 'to_file[%s]' % fmt_, 'format %r: calls %s' % (fmt_, [show(c)[:80] for c in calls]),
+                               sample=dict(format=fmt_, calls=[show(c)[:70] for c in calls]))
+        except (Undecided, NotEvaluable) as exc:
+            rep.unknown('to_file: dispatch on the format could not be evaluated (%s)' % exc)
     wl = cx.leaves('io', '_save_wave')
     for l in wl:
         if l.outcome == 'raise':
